@@ -163,6 +163,9 @@ class Analysis:
             if isinstance(base, tuple) and base[0] == "tup" and isinstance(e.slice, ast.Constant) and isinstance(e.slice.value, int) and -len(base[1]) <= e.slice.value < len(base[1]):
                 return base[1][e.slice.value]
             if isinstance(e.slice, ast.Slice):
+                # which part of the text is taken depends on the bounds: a bound computed from position data makes the slice position-dependent
+                if any(b is not None and collapse(self.te(q, b)) for b in (e.slice.lower, e.slice.upper, e.slice.step)):
+                    return T
                 return base
             idx = self.te(q, e.slice)
             r = elem(base)
